@@ -15,6 +15,7 @@ import (
 	"encoding/json"
 	"fmt"
 	"os"
+	"os/signal"
 	"path/filepath"
 	"sort"
 	"strings"
@@ -49,6 +50,10 @@ type Plan struct {
 type Edit struct {
 	Path    string  `json:"p"`
 	Content *string `json:"c"`
+	// InPlace: the file is rewritten in place with different bytes of the same
+	// length and its modification time is restored (same size, mtime, inode:
+	// invisible to a comparison of scan-cache metadata).
+	InPlace bool `json:"inplace,omitempty"`
 }
 
 // Case is one scenario.
@@ -57,6 +62,9 @@ type Case struct {
 	// and the Transition's context is cancelled as soon as the cross-device
 	// copy of the (huge) planned file has begun.
 	XDev          bool              `json:"xdev,omitempty"`
+	// FlushFault: the final flush of the staged file for the (single) planned
+	// path fails (file size limit): its Commit must not store anything.
+	FlushFault    bool              `json:"flushfault,omitempty"`
 	InitExec      map[string]bool   `json:"init_exec,omitempty"`
 	Init          map[string]string `json:"init"`
 	MaxSize       uint64            `json:"maxsize,omitempty"`
@@ -374,6 +382,30 @@ func runCase(c Case) (res result) {
 	applyEdits := func(es []Edit) {
 		for _, e := range es {
 			full := filepath.Join(root, filepath.FromSlash(e.Path))
+			if e.InPlace {
+				st, err := os.Lstat(full)
+				old, rerr := os.ReadFile(full)
+				if err != nil || rerr != nil || !st.Mode().IsRegular() || len(old) == 0 {
+					continue
+				}
+				nw := append([]byte(nil), old...)
+				if nw[0] == '#' {
+					nw[0] = '%'
+				} else {
+					nw[0] = '#'
+				}
+				f, err := os.OpenFile(full, os.O_WRONLY, 0)
+				if err != nil {
+					continue
+				}
+				f.WriteAt(nw, 0)
+				f.Close()
+				os.Chtimes(full, st.ModTime(), st.ModTime())
+				note(nw)
+				hops = append(hops, fmt.Sprintf("HEdit %s (Some %s)", coretree.Str(e.Path), coretree.Str(cname(nw))))
+				tags = append(tags, "edit:inplace")
+				continue
+			}
 			if e.Content == nil {
 				if st, err := os.Lstat(full); err == nil && !st.IsDir() {
 					os.Remove(full)
@@ -479,7 +511,18 @@ func runCase(c Case) (res result) {
 			if !t.done {
 				tr.Operation = &rsync.Operation{Data: t.data, Start: t.start, Count: t.count}
 			}
+			faulty := c.FlushFault && t.done
+			var saved syscall.Rlimit
+			if faulty {
+				// the flush in Commit writes more than the limit allows
+				syscall.Getrlimit(syscall.RLIMIT_FSIZE, &saved)
+				syscall.Setrlimit(syscall.RLIMIT_FSIZE, &syscall.Rlimit{Cur: 4096, Max: saved.Max})
+			}
 			err := receiver.Receive(tr)
+			if faulty {
+				syscall.Setrlimit(syscall.RLIMIT_FSIZE, &saved)
+				tags = append(tags, "flushfault")
+			}
 			noteStaged()
 			obs := "RvOk"
 			if err != nil {
@@ -489,7 +532,11 @@ func runCase(c Case) (res result) {
 					panic("Receive: " + err.Error())
 				}
 			}
-			hops = append(hops, fmt.Sprintf("HRecv (%s) %s", t.coq(), obs))
+			if faulty {
+				hops = append(hops, fmt.Sprintf("HRecvF (%s) %s", t.coq(), obs))
+			} else {
+				hops = append(hops, fmt.Sprintf("HRecv (%s) %s", t.coq(), obs))
+			}
 		}
 		if finalize {
 			if err := rsync.Transmit(root, nil, nil, receiver); err != nil {
@@ -784,6 +831,8 @@ func genCase(r interface{ Intn(int) int }) Case {
 						c.EditsStage = append(c.EditsStage, Edit{Path: name, Content: &s})
 					case 1:
 						c.EditsStage = append(c.EditsStage, Edit{Path: name})
+					case 2:
+						c.EditsStage = append(c.EditsStage, Edit{Path: name, InPlace: true})
 					}
 				}
 			}
@@ -832,6 +881,7 @@ const header = "From Coq Require Import List Bool NArith String.\nImport ListNot
 
 func main() {
 	cfg := hx.Parse()
+	signal.Ignore(syscall.SIGXFSZ)
 	scratch = lepx.NewScratch()
 	defer scratch.Remove()
 	w := hx.NewWriter(cfg, header, "scase", "staging_failures", 150)
@@ -913,6 +963,17 @@ func main() {
 			Plans: []Plan{{Path: "bigdst", Content: tag, Kind: "create", Stream: "ok"}}}
 	}
 	runAll(xdev, "xdev")
+	// the final flush of a staged file fails (one at a time: the file size
+	// limit that provokes it is process-wide)
+	nf := 3
+	if cfg.Thorough() {
+		nf = 10
+	}
+	for i := 0; i < nf; i++ {
+		content := strings.Repeat(fmt.Sprintf("flush-fault-%d ", i), 400)[:5000]
+		runAll([]Case{{FlushFault: true, Finalize: true, Init: map[string]string{"a": "small"},
+			Plans: []Plan{{Path: "n1", Content: content, Kind: "create", Stream: "ok"}}}}, "flushfault")
+	}
 	n := 1800
 	if cfg.Thorough() {
 		n = 30000
